@@ -6,7 +6,7 @@ Import ListNotations.
 Local Open Scope Z_scope.
 
 Section LimitsProofs.
-Context (db : database).
+Context (db : database) (v : variant).
 
 Notation spf := (spf db).
 Notation eof := (eof db).
@@ -30,37 +30,50 @@ Proof.
   - rewrite H2. exact H1.
 Qed.
 
-Lemma get_eof_spec f : wf f -> noclamp f -> eof_rep (eof f) (get_eof db f).
+Lemma noclamp_or_sub (P Q : Prop) : v_clamp v = true \/ (P /\ Q) -> (v_clamp v = true \/ P) /\ (v_clamp v = true \/ Q).
+Proof. intros [H|[H1 H2]]; auto. Qed.
+
+Lemma get_eof_spec f : wf f -> v_clamp v = true \/ noclamp f -> eof_rep (eof f) (get_eof db v f).
 Proof.
   induction f; simpl; intros Hw Hc.
   - f_equal. unfold raw_start. lia.
   - reflexivity.
-  - destruct Hc as [Hc Hx]. specialize (IHf Hw Hc).
-    destruct (get_eof db f) as [ns ii]. destruct (eof f) as [x|]; unfold eof_rep in *; cbn [eshift].
+  - assert (Hsub : v_clamp v = true \/ noclamp f) by (destruct Hc as [H|[H _]]; auto).
+    specialize (IHf Hw Hsub).
+    destruct (get_eof db v f) as [ns ii]. destruct (eof f) as [x|] eqn:Ee; unfold eof_rep in *; cbn [eshift].
     + injection IHf as -> ->. cbv zeta iota.
-      replace (x - shift <? 0) with false by (symmetry; apply Z.ltb_ge; lia).
-      f_equal; try lia.
-    + cbn [snd] in IHf. subst ii. cbv zeta iota. destruct (ns <? 0); reflexivity.
+      destruct (v_clamp v) eqn:Ev.
+      * f_equal; try lia.
+      * destruct Hc as [H|[_ Hx]]; [discriminate|].
+        replace (x - shift <? 0) with false by (symmetry; apply Z.ltb_ge; lia).
+        f_equal; try lia.
+    + cbn [snd] in IHf. subst ii. cbv zeta iota. destruct (v_clamp v); [reflexivity|]. destruct (ns <? 0); reflexivity.
   - auto.
-  - destruct Hw, Hc. pose proof (eof_step_rep _ _ _ _ (spf f1) (spf f2) (IHf1 H H1) (IHf2 H0 H2)) as R.
-    destruct (get_eof db f1), (get_eof db f2). exact R.
-  - destruct Hw as (Hw1 & Hw2 & Hw3), Hc as (Hc1 & Hc2 & Hc3).
+  - destruct Hw. apply noclamp_or_sub in Hc. destruct Hc as [Hc1 Hc2].
+    pose proof (eof_step_rep _ _ _ _ (spf f1) (spf f2) (IHf1 H Hc1) (IHf2 H0 Hc2)) as R.
+    destruct (get_eof db v f1), (get_eof db v f2). exact R.
+  - destruct Hw as (Hw1 & Hw2 & Hw3).
+    assert (Hc1 : v_clamp v = true \/ noclamp f1) by (destruct Hc as [H|(H1 & _ & _)]; auto).
+    assert (Hc2 : v_clamp v = true \/ noclamp f2) by (destruct Hc as [H|(_ & H2 & _)]; auto).
+    assert (Hc3 : v_clamp v = true \/ noclamp f3) by (destruct Hc as [H|(_ & _ & H3)]; auto).
     pose proof (eof_step_rep _ _ _ _ (spf f1) (spf f2) (IHf1 Hw1 Hc1) (IHf2 Hw2 Hc2)) as R.
-    destruct (get_eof db f1) as [ns ii], (get_eof db f2) as [ns1 ii1]. simpl fst in R. simpl snd in R.
+    destruct (get_eof db v f1) as [ns ii], (get_eof db v f2) as [ns1 ii1]. simpl fst in R. simpl snd in R.
     destruct (eof_step ns ii ns1 ii1 (spf f1) (spf f2)) as [ns' ii'] eqn:E.
     pose proof (eof_step_rep _ _ (ns', ii') _ (spf f1) (spf f3) R (IHf3 Hw3 Hc3)) as R2.
-    destruct (get_eof db f3). exact R2.
-  - destruct Hw, Hc. pose proof (eof_step_rep _ _ _ _ (spf f1) (spf f2) (IHf1 H H1) (IHf2 H0 H2)) as R.
-    destruct (get_eof db f1), (get_eof db f2). exact R.
+    destruct (get_eof db v f3). exact R2.
+  - destruct Hw. apply noclamp_or_sub in Hc. destruct Hc as [Hc1 Hc2].
+    pose proof (eof_step_rep _ _ _ _ (spf f1) (spf f2) (IHf1 H Hc1) (IHf2 H0 Hc2)) as R.
+    destruct (get_eof db v f1), (get_eof db v f2). exact R.
 Qed.
 
-(* gd_eof reports the documented end-of-field when nothing was clamped *)
-Lemma impl_eof_spec f : wf f -> noclamp f ->
-  impl_eof db f = match eof f with Fin x => Some x | Inf => None end.
+(* gd_eof reports the documented end-of-field (clamped at zero by the repaired
+   code) when nothing was clamped inside *)
+Lemma impl_eof_spec f : wf f -> v_clamp v = true \/ noclamp f ->
+  impl_eof db v f = match eof f with Fin x => Some (if v_clamp v then Z.max 0 x else x) | Inf => None end.
 Proof.
   intros Hw Hc. pose proof (get_eof_spec f Hw Hc) as R. unfold impl_eof.
-  destruct (get_eof db f) as [ns ii]. destruct (eof f); simpl in R.
-  - inversion R; subst. reflexivity.
+  destruct (get_eof db v f) as [ns ii]. destruct (eof f); simpl in R.
+  - injection R as -> ->. reflexivity.
   - subst. reflexivity.
 Qed.
 
@@ -76,21 +89,22 @@ Qed.
 
 (* ---- counts ---------------------------------------------------------------- *)
 Lemma count_is_eof (A : Alg) f rt s n e :
-  wf f -> 0 <= n -> covered A db rt f s n -> noclamp f ->
-  impl_eof db f = Some e ->
-  read_count A db rt f s n = Some (Z.min n (Z.max 0 (e - s))).
+  wf f -> 0 <= s -> 0 <= n -> covered A db v rt f s n -> v_clamp v = true \/ noclamp f ->
+  impl_eof db v f = Some e ->
+  read_count A db v rt f s n = Some (Z.min n (Z.max 0 (e - s))).
 Proof.
-  intros Hw Hn Hc Hnc He. unfold read_count. rewrite (read_ok A db f rt s n Hw Hn Hc). simpl.
+  intros Hw Hs Hn Hc Hnc He. unfold read_count. rewrite (read_ok A db v f rt s n Hw Hn Hc). simpl.
   rewrite zlen_spec_window by auto. unfold spec_count.
-  rewrite (impl_eof_spec f Hw Hnc) in He. destruct (eof f); inversion He; subst. reflexivity.
+  rewrite (impl_eof_spec f Hw Hnc) in He. destruct (eof f); inversion He; subst. simpl.
+  f_equal. destruct (v_clamp v); lia.
 Qed.
 
 Lemma count_no_eof (A : Alg) f rt s n :
-  wf f -> 0 <= n -> covered A db rt f s n -> noclamp f ->
-  impl_eof db f = None ->
-  read_count A db rt f s n = Some n.
+  wf f -> 0 <= n -> covered A db v rt f s n -> v_clamp v = true \/ noclamp f ->
+  impl_eof db v f = None ->
+  read_count A db v rt f s n = Some n.
 Proof.
-  intros Hw Hn Hc Hnc He. unfold read_count. rewrite (read_ok A db f rt s n Hw Hn Hc). simpl.
+  intros Hw Hn Hc Hnc He. unfold read_count. rewrite (read_ok A db v f rt s n Hw Hn Hc). simpl.
   rewrite zlen_spec_window by auto. unfold spec_count.
   rewrite (impl_eof_spec f Hw Hnc) in He. destruct (eof f); inversion He; subst. reflexivity.
 Qed.
@@ -129,15 +143,17 @@ Proof.
 Qed.
 
 Lemma bof_step_frames Bg Bh s1 s2 : 0 < s1 -> 0 < s2 ->
-  bof_step (Bg, s1, 0) (Bh, s2, 0) = (Z.max Bg Bh, s1, 0).
+  bof_step v (Bg, s1, 0) (Bh, s2, 0) = (Z.max Bg Bh, s1, 0).
 Proof.
   intros. unfold bof_step. simpl.
   replace (0 <? 0) with false by reflexivity. rewrite andb_false_r, orb_false_r.
+  replace (if v_bofceil v then cdiv 0 s2 else 0 / s2) with 0.
+  2:{ destruct (v_bofceil v); [unfold cdiv; symmetry; apply Z.div_small; lia | reflexivity]. }
   destruct (Z.ltb_spec Bg Bh); f_equal; f_equal; lia.
 Qed.
 
 Lemma get_bof_nophase f : wf f -> nophase f ->
-  exists B, get_bof db f = (B, spf f, 0) /\ bof_raw db f = B * spf f /\ 0 <= B.
+  exists B, get_bof db v f = (B, spf f, 0) /\ bof_raw db f = B * spf f /\ 0 <= B.
 Proof.
   induction f; simpl; intros Hw Hp.
   - exists (r_fo (db id)). unfold raw_start. split; [reflexivity|]. split; lia.
@@ -167,19 +183,99 @@ Proof.
 Qed.
 
 (* gd_bof of a field without PHASE is the documented beginning-of-field ... *)
-Lemma impl_bof_nophase f : wf f -> nophase f -> impl_bof db f = spec_bof db f.
+Lemma impl_bof_nophase f : wf f -> nophase f -> impl_bof db v f = spec_bof db f.
 Proof.
   intros Hw Hp. destruct (get_bof_nophase f Hw Hp) as (B & E & R & P).
-  unfold impl_bof, spec_bof. rewrite E, R. pose proof (spf_pos db f Hw). nia.
+  unfold impl_bof, spec_bof. rewrite E, R. pose proof (spf_pos db f Hw). destruct (v_clamp v); nia.
 Qed.
 
 (* ... and exactly the samples from gd_bof on are made of real data only *)
 Lemma bof_is_first_real f : wf f -> nophase f ->
-  forall k, is_real db f k = true <-> impl_bof db f <= k.
+  forall k, is_real db f k = true <-> impl_bof db v f <= k.
 Proof.
   intros Hw Hp k. rewrite (is_real_iff f Hw k).
   destruct (get_bof_nophase f Hw Hp) as (B & E & R & P).
-  unfold impl_bof. rewrite E, R. lia.
+  unfold impl_bof. rewrite E, R. pose proof (spf_pos db f Hw). destruct (v_clamp v); nia.
+Qed.
+
+(* ---- the repaired beginning-of-field (C16-1 + C16-2): every field --------------- *)
+Lemma cdiv_add a k b : 0 < b -> cdiv (a + k * b) b = k + cdiv a b.
+Proof.
+  intro Hb. unfold cdiv. replace (a + k * b + b - 1) with ((a + b - 1) + k * b) by lia.
+  rewrite Z.div_add by lia. lia.
+Qed.
+
+Lemma cdiv_nonneg a b : 0 < b -> 0 <= a -> 0 <= cdiv a b.
+Proof. intros. unfold cdiv. apply Z.div_pos; lia. Qed.
+
+Lemma bof_step_fixed B1 d1 B2 d2 s1 s2 :
+  v_bofceil v = true -> 0 < s1 -> 0 < s2 -> 0 <= d1 <= s1 -> 0 <= d2 <= s2 ->
+  exists B d, bof_step v (B1, s1, d1) (B2, s2, d2) = (B, s1, d) /\ 0 <= d <= s1 /\
+    B * s1 + d = Z.max (B1 * s1 + d1) (cdiv ((B2 * s2 + d2) * s1) s2).
+Proof.
+  intros Hv H1 H2 Hd1 Hd2. unfold bof_step. rewrite Hv.
+  assert (Hc : cdiv ((B2 * s2 + d2) * s1) s2 = B2 * s1 + cdiv (d2 * s1) s2).
+  { replace ((B2 * s2 + d2) * s1) with (d2 * s1 + (B2 * s1) * s2) by lia. rewrite cdiv_add by lia. lia. }
+  assert (Hlo : 0 <= cdiv (d2 * s1) s2) by (apply cdiv_nonneg; nia).
+  assert (Hhi : cdiv (d2 * s1) s2 <= s1) by (apply cdiv_le_iff; nia).
+  rewrite Hc.
+  destruct (Z.ltb_spec B1 B2) as [Hlt|Hge]; simpl orb.
+  - exists B2, (cdiv (d2 * s1) s2). split; [reflexivity|]. split; [lia|]. nia.
+  - destruct (Z.eqb_spec B2 B1) as [He|Hne]; simpl andb.
+    + destruct (Z.ltb_spec (d1 * s2) (d2 * s1)) as [Hl|Hg].
+      * exists B2, (cdiv (d2 * s1) s2). split; [reflexivity|]. split; [lia|].
+        assert (d1 < cdiv (d2 * s1) s2).
+        { pose proof (cdiv_ge (d2 * s1) s2 H2). nia. }
+        subst. lia.
+      * exists B1, d1. split; [reflexivity|]. split; [lia|].
+        assert (cdiv (d2 * s1) s2 <= d1) by (apply cdiv_le_iff; lia). subst. lia.
+    + exists B1, d1. split; [reflexivity|]. split; [lia|]. nia.
+Qed.
+
+Lemma get_bof_fixed f : v_clamp v = true -> v_bofceil v = true -> wf f ->
+  exists B d, get_bof db v f = (B, spf f, d) /\ 0 <= d <= spf f /\ B * spf f + d = bof_raw db f.
+Proof.
+  intros Hcl Hce. induction f; simpl; intros Hw.
+  - exists (r_fo (db id)), 0. unfold raw_start. split; [reflexivity|]. split; lia.
+  - exists 0, 0. split; [reflexivity|]. split; lia.
+  - destruct (IHf Hw) as (B & d & E & Hd & R). rewrite E, Hcl.
+    pose proof (spf_pos db f Hw) as Hs.
+    exists (B + (d - shift) / spf f), ((d - shift) mod spf f). split; [reflexivity|].
+    pose proof (Z.mod_pos_bound (d - shift) (spf f) Hs).
+    pose proof (Z.div_mod (d - shift) (spf f) ltac:(lia)). split; [lia|]. nia.
+  - auto.
+  - destruct Hw as [Hw1 Hw2].
+    destruct (IHf1 Hw1) as (B1 & d1 & E1 & Hd1 & R1). destruct (IHf2 Hw2) as (B2 & d2 & E2 & Hd2 & R2).
+    pose proof (spf_pos db f1 Hw1). pose proof (spf_pos db f2 Hw2).
+    destruct (bof_step_fixed B1 d1 B2 d2 (spf f1) (spf f2) Hce ltac:(lia) ltac:(lia) Hd1 Hd2) as (B & d & E & Hd & R).
+    exists B, d. rewrite E1, E2, E. split; [reflexivity|]. split; [exact Hd|]. rewrite R, R1, R2. reflexivity.
+  - destruct Hw as (Hw1 & Hw2 & Hw3).
+    destruct (IHf1 Hw1) as (B1 & d1 & E1 & Hd1 & R1). destruct (IHf2 Hw2) as (B2 & d2 & E2 & Hd2 & R2).
+    destruct (IHf3 Hw3) as (B3 & d3 & E3 & Hd3 & R3).
+    pose proof (spf_pos db f1 Hw1). pose proof (spf_pos db f2 Hw2). pose proof (spf_pos db f3 Hw3).
+    destruct (bof_step_fixed B1 d1 B2 d2 (spf f1) (spf f2) Hce ltac:(lia) ltac:(lia) Hd1 Hd2) as (B & d & E & Hd & R).
+    destruct (bof_step_fixed B d B3 d3 (spf f1) (spf f3) Hce ltac:(lia) ltac:(lia) Hd Hd3) as (B' & d' & E' & Hd' & R').
+    exists B', d'. rewrite E1, E2, E3, E, E'. split; [reflexivity|]. split; [exact Hd'|].
+    rewrite R', R, R1, R2, R3. reflexivity.
+  - destruct Hw as [Hw1 Hw2].
+    destruct (IHf1 Hw1) as (B1 & d1 & E1 & Hd1 & R1). destruct (IHf2 Hw2) as (B2 & d2 & E2 & Hd2 & R2).
+    pose proof (spf_pos db f1 Hw1). pose proof (spf_pos db f2 Hw2).
+    destruct (bof_step_fixed B1 d1 B2 d2 (spf f1) (spf f2) Hce ltac:(lia) ltac:(lia) Hd1 Hd2) as (B & d & E & Hd & R).
+    exists B, d. rewrite E1, E2, E. split; [reflexivity|]. split; [exact Hd|]. rewrite R, R1, R2. reflexivity.
+Qed.
+
+(* with both repairs gd_bof is the documented beginning-of-field of EVERY field,
+   and from sample 0 on exactly the samples at or after it are real data *)
+Lemma impl_bof_fixed f : v_clamp v = true -> v_bofceil v = true -> wf f -> impl_bof db v f = spec_bof db f.
+Proof.
+  intros Hcl Hce Hw. destruct (get_bof_fixed f Hcl Hce Hw) as (B & d & E & _ & R).
+  unfold impl_bof, spec_bof. rewrite E, Hcl, R. reflexivity.
+Qed.
+
+Lemma bof_is_first_real_fixed f k : v_clamp v = true -> v_bofceil v = true -> wf f -> 0 <= k ->
+  (is_real db f k = true <-> impl_bof db v f <= k).
+Proof.
+  intros Hcl Hce Hw Hk. rewrite (is_real_iff f Hw k), (impl_bof_fixed f Hcl Hce Hw). unfold spec_bof. lia.
 Qed.
 
 End LimitsProofs.
